@@ -48,9 +48,15 @@ class _Provider:
 
 
 def _authenticate(req):
+    from vgi_rpc.http import AuthUnavailableError
     from vgi_rpc.rpc import AuthContext
-    if req.get_header("Authorization") == "Bearer ok":
+    h = req.get_header("Authorization")
+    if h == "Bearer ok":
         return AuthContext(domain="test", authenticated=True, principal="alice")
+    if h == "Bearer crash":
+        raise RuntimeError("bug inside the authenticate callback")
+    if h == "Bearer down":
+        raise AuthUnavailableError("identity provider unreachable")
     raise ValueError("missing or bad credential")
 
 
@@ -97,6 +103,12 @@ def build(cfg: dict, vals: dict, servers: dict):
         kw["introspect_principals"] = ["proxy"]
     if cfg["auth"]:
         kw["authenticate"] = _authenticate
+    if cfg["prefix"]:
+        kw["prefix"] = "/vgi"
+    if cfg["cors"]:
+        kw["cors_origins"] = "*"
+    if not cfg["pages"]:
+        kw.update(enable_not_found_page=False, enable_landing_page=False, enable_describe_page=False)
     old = os.environ.pop("VGI_HTTP_DISABLE_ZSTD", None)
     if cfg["comp"] == "g":
         os.environ["VGI_HTTP_DISABLE_ZSTD"] = "1"
@@ -128,11 +140,11 @@ EMPTY_PROBE = {"maxReq": "none", "maxResp": "none", "maxExt": "none", "maxUpload
                "ext": False, "upload": False, "sticky": False, "encodings": [], "echo": []}
 
 
-def probe(app) -> dict:
+def probe(app, prefix: str = "") -> dict:
     from vgi_rpc.http import http_capabilities
     from vgi_rpc.http._testing import _SyncTestClient
 
-    caps = http_capabilities(client=_SyncTestClient(app))
+    caps = http_capabilities(client=_SyncTestClient(app, prefix=prefix))
     s = lambda x: "none" if x is None else str(x)
     return {"maxReq": s(caps.max_request_bytes), "maxResp": s(caps.max_response_bytes),
             "maxExt": s(caps.max_externalized_response_bytes), "maxUpload": s(caps.max_upload_bytes),
@@ -148,7 +160,7 @@ def run(ctx: Ctx) -> None:
 
     consts = {"Slice": "quick" if ctx.quick else "full"}
     invs = ["AlwaysTwo", "RouteIndependent", "UploadBytesNeedsProvider", "StickyFamily", "EmittedOnlyFromTable",
-            "ApplicableCase"]
+            "ApplicableCase", "EnvironmentIndependent"]
     cases = U.enumerate_split(ctx, "httpgate", "Caps", constants=consts, invariants=invs)
     ctx.exhaustive = True
     ctx.rule = ("case = (configuration vector of 12 switches, route kind), all enumerated by TLC from Caps!Cases; one "
@@ -196,61 +208,72 @@ def run(ctx: Ctx) -> None:
                  "maxUpload": str(vals["maxUpload"]), "ttl": str(vals["ttl"]), "echo": list(vals["echo"])}
         tokens = None
         groups: dict = {}
+        P = "/vgi" if cfg["prefix"] else ""
         for route in case["routes"]:
             pr = EMPTY_PROBE
             if route == "probe":
-                pr = probe(app)
-                st, hd, _ = U.wsgi_call(app, "OPTIONS", "/health")
+                pr = probe(app, P)
+                st, hd, _ = U.wsgi_call(app, "OPTIONS", P + "/health")
             elif route == "options_health":
-                st, hd, _ = U.wsgi_call(app, "OPTIONS", "/health")
+                st, hd, _ = U.wsgi_call(app, "OPTIONS", P + "/health")
             elif route == "head_health":
-                st, hd, _ = U.wsgi_call(app, "HEAD", "/health")
+                st, hd, _ = U.wsgi_call(app, "HEAD", P + "/health")
             elif route == "get_health":
-                st, hd, _ = U.wsgi_call(app, "GET", "/health")
+                st, hd, _ = U.wsgi_call(app, "GET", P + "/health")
             elif route == "unary_ok":
-                st, hd, _ = U.wsgi_call(app, "POST", "/echo", U.echo_body(server, 10), good)
+                st, hd, _ = U.wsgi_call(app, "POST", P + "/echo", U.echo_body(server, 10), good)
             elif route == "unary_err":
-                st, hd, _ = U.wsgi_call(app, "POST", "/fail", U.unary_body(server, "fail", {"x": 1}), good)
+                st, hd, _ = U.wsgi_call(app, "POST", P + "/fail", U.unary_body(server, "fail", {"x": 1}), good)
             elif route == "bad_request":
-                st, hd, _ = U.wsgi_call(app, "POST", "/echo", b"not arrow at all", good)
+                st, hd, _ = U.wsgi_call(app, "POST", P + "/echo", b"not arrow at all", good)
             elif route == "unauth":
-                st, hd, _ = U.wsgi_call(app, "POST", "/echo", U.echo_body(server, 10), {"Content-Type": U.ARROW_CT})
+                st, hd, _ = U.wsgi_call(app, "POST", P + "/echo", U.echo_body(server, 10), {"Content-Type": U.ARROW_CT})
             elif route == "unknown_method":
-                st, hd, _ = U.wsgi_call(app, "POST", "/no_such_method", U.echo_body(server, 10), good)
+                st, hd, _ = U.wsgi_call(app, "POST", P + "/no_such_method", U.echo_body(server, 10), good)
             elif route == "not_found_page":
-                st, hd, _ = U.wsgi_call(app, "GET", "/a/b/c/d", None, {"Authorization": "Bearer ok"})
+                st, hd, _ = U.wsgi_call(app, "GET", P + "/a/b/c/d", None, {"Authorization": "Bearer ok"})
             elif route == "too_large":
                 # Content-Length beyond the cap; the body itself is never read
-                st, hd, _ = U.wsgi_call(app, "POST", "/echo", b"x", {**good, "Content-Length": str(vals["maxReq"] + 1)})
+                st, hd, _ = U.wsgi_call(app, "POST", P + "/echo", b"x", {**good, "Content-Length": str(vals["maxReq"] + 1)})
             elif route == "bad_ct":
-                st, hd, _ = U.wsgi_call(app, "POST", "/echo", U.echo_body(server, 10), {**good, "Content-Type": "text/plain"})
+                st, hd, _ = U.wsgi_call(app, "POST", P + "/echo", U.echo_body(server, 10), {**good, "Content-Type": "text/plain"})
             elif route == "bad_ce":
-                st, hd, _ = U.wsgi_call(app, "POST", "/echo", U.echo_body(server, 10), {**good, "Content-Encoding": "br"})
+                st, hd, _ = U.wsgi_call(app, "POST", P + "/echo", U.echo_body(server, 10), {**good, "Content-Encoding": "br"})
             elif route == "init":
-                st, hd, b = U.wsgi_call(app, "POST", "/prod/init", U.unary_body(server, "prod", {}), good)
+                st, hd, b = U.wsgi_call(app, "POST", P + "/prod/init", U.unary_body(server, "prod", {}), good)
                 tokens = U.tokens_of(b) if st == 200 else None
             elif route in ("exchange", "exchange_bad"):
                 if tokens is None:
-                    s0, _, b = U.wsgi_call(app, "POST", "/prod/init", U.unary_body(server, "prod", {}), good)
+                    s0, _, b = U.wsgi_call(app, "POST", P + "/prod/init", U.unary_body(server, "prod", {}), good)
                     tokens = U.tokens_of(b)
                 body = U.tick_body(tokens) if route == "exchange" else U.tick_body({})
-                st, hd, _ = U.wsgi_call(app, "POST", "/prod/exchange", body, good)
+                st, hd, _ = U.wsgi_call(app, "POST", P + "/prod/exchange", body, good)
             elif route == "method_not_allowed":
-                st, hd, _ = U.wsgi_call(app, "GET", "/echo", None, {"Authorization": "Bearer ok"})
+                st, hd, _ = U.wsgi_call(app, "GET", P + "/echo", None, {"Authorization": "Bearer ok"})
             elif route == "options_rpc":
-                st, hd, _ = U.wsgi_call(app, "OPTIONS", "/echo")
+                st, hd, _ = U.wsgi_call(app, "OPTIONS", P + "/echo")
             elif route == "landing":
-                st, hd, _ = U.wsgi_call(app, "GET", "/", None, {"Authorization": "Bearer ok"})
+                st, hd, _ = U.wsgi_call(app, "GET", P + "/", None, {"Authorization": "Bearer ok"})
             elif route == "introspect_route":
-                st, hd, _ = U.wsgi_call(app, "POST", "/__introspect_token__", b'{"token":"t"}',
+                st, hd, _ = U.wsgi_call(app, "POST", P + "/__introspect_token__", b'{"token":"t"}',
                                         {"Content-Type": "application/json", "Authorization": "Bearer ok"})
             elif route == "session_delete":
-                st, hd, _ = U.wsgi_call(app, "DELETE", "/__session__", None, {"Authorization": "Bearer ok", "VGI-Session": "bogus"})
+                st, hd, _ = U.wsgi_call(app, "DELETE", P + "/__session__", None, {"Authorization": "Bearer ok", "VGI-Session": "bogus"})
             elif route == "upload_url":
                 from vgi_rpc.http._common import _UPLOAD_URL_METHOD
                 import pyarrow as pa
                 body = U.world.raw_request(_UPLOAD_URL_METHOD.encode(), pa.schema([pa.field("count", pa.int64())]), {"count": 1})
-                st, hd, _ = U.wsgi_call(app, "POST", "/__upload_url__/init", body, good)
+                st, hd, _ = U.wsgi_call(app, "POST", P + "/__upload_url__/init", body, good)
+            elif route == "auth_crash":
+                st, hd, _ = U.wsgi_call(app, "POST", P + "/echo", U.echo_body(server, 10), {**good, "Authorization": "Bearer crash"})
+            elif route == "auth_unavailable":
+                st, hd, _ = U.wsgi_call(app, "POST", P + "/echo", U.echo_body(server, 10), {**good, "Authorization": "Bearer down"})
+            elif route == "cors_preflight":
+                st, hd, _ = U.wsgi_call(app, "OPTIONS", P + "/echo", None,
+                                        {"Origin": "https://app.example", "Access-Control-Request-Method": "POST",
+                                         "Access-Control-Request-Headers": "content-type, x-vgi-accept-encoding"})
+            elif route == "outside_prefix":
+                st, hd, _ = U.wsgi_call(app, "GET", "/echo", None, {"Authorization": "Bearer ok"})
             else:
                 raise MachineryError(f"route kind {route} not concretised")
             h, unknown = headers_obs(hd)
